@@ -1,6 +1,393 @@
-/-! `pmodel surface`: line-protocol driver (stub — replaced by the owner of this model). -/
-namespace Driver.Surface
+import PhreeqcVerif.Model.Util
+import PhreeqcVerif.Model.Surface
+/-! `pmodel surface`: reads the in-process dump written by `harness/ph_surface.cpp` (one block per completed
+calculation) and recomputes every relation of property C20 with the definitions of `Model/Surface.lean` on `Float`.
 
-def run : IO Unit := IO.eprintln "pmodel surface: not implemented"
+Output lines:
+* `N case blk have state stype dltype nSites nCharges nSpecies` — what the block contained
+* `V case blk kind name ok|FAIL lhs rhs` — a relation of the PROPERTY (site balance, mass action incl. electrostatic
+  term, charge–potential law, diffuse-layer neutrality, the same on the public read-outs); doubles as 16 hex digits
+* `T case blk kind name ok|FAIL a b` — a TIE relation: a number the code holds equals the model's recomputation
+  (psi-token coefficients, lm from rxn_x, f of a row, residual of a row, read-out = internal value) -/
+namespace Driver.Surface
+open PhreeqcVerif PhreeqcVerif.Util PhreeqcVerif.Surface
+
+structure TokD where
+  name : String
+  coef : Float
+  la : Float
+  type : Int
+  z : Float
+
+structure Sp where
+  name : String
+  z : Float
+  lm : Float
+  la : Float
+  lk : Float
+  lg : Float
+  moles : Float
+  lkdb : Float
+  dz : Float × Float × Float
+  primary : Bool
+  rxnx : List TokD
+  rxn : List TokD
+  elts : List (String × Float × Int)
+  equiv : Float
+  cd : List Float
+
+structure Aq where
+  name : String
+  z : Float
+  lm : Float
+  moles : Float
+  erm : Float
+  la : Float
+  g : List (String × Float)
+
+structure Unk where
+  idx : Nat
+  type : Nat
+  desc : String
+  moles : Float
+  f : Float
+  resid : Float
+  masterName : String
+  masterLa : Float
+  charge : String
+  comp : String
+  hasPhase : Bool
+  phaseMoles : Float
+  zMaster : Float
+  potIdx : Int
+  elt : String
+  masterCoef : Float
+
+structure Charge where
+  name : String
+  area : Float
+  grams : Float
+  water : Float
+  cap0 : Float
+  cap1 : Float
+  s0 : Float
+  s1 : Float
+  s2 : Float
+  sddl : Float
+
+structure Comp where
+  formula : String
+  charge : String
+  phase : String
+  rate : String
+  prop : Float
+  moles : Float
+  elt : String
+
+structure Block where
+  case : String := ""
+  blk : String := ""
+  present : Bool := false
+  state : Nat := 0
+  stype : Nat := 0
+  dltype : Nat := 0
+  onlyCounter : Bool := false
+  tk : Float := 0
+  mu : Float := 0
+  epsr : Float := 0
+  mwAq : Float := 0
+  tol : Float := 0
+  ineqTol : Float := 0
+  minRel : Float := 0
+  comps : Array Comp := #[]
+  charges : Array Charge := #[]
+  unks : Array Unk := #[]
+  sps : Array Sp := #[]
+  aqs : Array Aq := #[]
+  outs : Array (String × Float) := #[]
+
+def fh (s : String) : Float := (floatOfHex s).getD (0.0 / 0.0)
+def sh (s : String) : String := (unhexStr s).getD "?"
+
+/-- parse `n` tokens of 5 words each; returns tokens and the rest -/
+def takeToks : Nat → List String → List TokD → List TokD × List String
+  | 0, ws, acc => (acc.reverse, ws)
+  | n + 1, a :: b :: c :: d :: e :: rest, acc =>
+      takeToks n rest ({ name := sh a, coef := fh b, la := fh c, type := d.toInt?.getD (-1), z := fh e } :: acc)
+  | _, ws, acc => (acc.reverse, ws)
+
+def takeElts : Nat → List String → List (String × Float × Int) → List (String × Float × Int) × List String
+  | 0, ws, acc => (acc.reverse, ws)
+  | n + 1, a :: b :: c :: rest, acc => takeElts n rest ((sh a, fh b, c.toInt?.getD (-1)) :: acc)
+  | _, ws, acc => (acc.reverse, ws)
+
+def takePairs : Nat → List String → List (String × Float) → List (String × Float)
+  | 0, _, acc => acc.reverse
+  | n + 1, a :: b :: rest, acc => takePairs n rest ((sh a, fh b) :: acc)
+  | _, _, acc => acc.reverse
+
+def parseP (ws : List String) : Option Sp :=
+  match ws with
+  | name :: z :: lm :: la :: lk :: lg :: moles :: lkdb :: d0 :: d1 :: d2 :: prim :: nx :: rest =>
+    let (rxnx, rest) := takeToks (nx.toNat?.getD 0) rest []
+    match rest with
+    | ndb :: rest =>
+      let (rxn, rest) := takeToks (ndb.toNat?.getD 0) rest []
+      match rest with
+      | ne :: rest =>
+        let (elts, rest) := takeElts (ne.toNat?.getD 0) rest []
+        match rest with
+        | _c0 :: _c0x :: equiv :: _alk :: cds =>
+          some { name := sh name, z := fh z, lm := fh lm, la := fh la, lk := fh lk, lg := fh lg, moles := fh moles,
+                 lkdb := fh lkdb, dz := (fh d0, fh d1, fh d2), primary := prim == "1", rxnx := rxnx, rxn := rxn,
+                 elts := elts, equiv := fh equiv, cd := cds.map fh }
+        | _ => none
+      | _ => none
+    | _ => none
+  | _ => none
+
+def addLine (b : Block) (ws : List String) : Block :=
+  match ws with
+  | "G" :: hv :: st :: rest =>
+    let b := { b with present := hv == "1", state := st.toNat?.getD 0 }
+    match rest with
+    | ty :: dl :: oc :: _ => { b with stype := ty.toNat?.getD 0, dltype := dl.toNat?.getD 0, onlyCounter := oc == "1" }
+    | _ => b
+  | "S" :: tk :: mu :: er :: mw :: _mwb :: _mws :: tol :: it :: mr :: _ =>
+    { b with tk := fh tk, mu := fh mu, epsr := fh er, mwAq := fh mw, tol := fh tol, ineqTol := fh it, minRel := fh mr }
+  | ["K", fo, c, ph, rt, pr, mo, el] =>
+    let c' : Comp :=
+      { formula := sh fo, charge := sh c, phase := sh ph, rate := sh rt, prop := fh pr, moles := fh mo, elt := sh el }
+    { b with comps := b.comps.push c' }
+  | ["C", n, a, g, w, c0, c1, s0, s1, s2, sd] =>
+    let c' : Charge :=
+      { name := sh n, area := fh a, grams := fh g, water := fh w, cap0 := fh c0,
+        cap1 := fh c1, s0 := fh s0, s1 := fh s1, s2 := fh s2, sddl := fh sd }
+    { b with charges := b.charges.push c' }
+  | ["U", i, ty, d, mo, fv, r, mn, mla, ch, co, hp, pm, zm, pidx, el, mc] =>
+    let u : Unk :=
+      { idx := i.toNat?.getD 0, type := ty.toNat?.getD 0, desc := sh d, moles := fh mo, f := fh fv,
+        resid := fh r, masterName := sh mn, masterLa := fh mla, charge := sh ch, comp := sh co, hasPhase := hp == "1",
+        phaseMoles := fh pm, zMaster := fh zm, potIdx := pidx.toInt?.getD (-1), elt := sh el, masterCoef := fh mc }
+    { b with unks := b.unks.push u }
+  | "P" :: rest =>
+    match parseP rest with
+    | some sp => { b with sps := b.sps.push sp }
+    | none => b
+  | "A" :: n :: z :: lm :: mo :: erm :: la :: ng :: rest =>
+    let a : Aq :=
+      { name := sh n, z := fh z, lm := fh lm, moles := fh mo, erm := fh erm, la := fh la,
+        g := takePairs (ng.toNat?.getD 0) rest [] }
+    { b with aqs := b.aqs.push a }
+  | ["R", h, v] =>
+    if v.startsWith "D" then { b with outs := b.outs.push (sh h, fh (v.drop 1).toString) } else b
+  | _ => b
+
+/-! ### evaluation -/
+
+def okS (b : Bool) : String := if b then "ok" else "FAIL"
+
+def vline (b : Block) (tag kind name : String) (ok : Bool) (l r : Float) : String :=
+  s!"{tag} {b.case} {b.blk} {kind} {hexStr name} {okS ok} {hexOfFloat l} {hexOfFloat r}"
+
+def isAqTok (t : TokD) : Bool := t.type == 0 || t.type == 1 || t.type == 3
+
+def under (x : Float) : Float := if x < -40.0 then 0.0 else if x > 3.0 then 1000.0 else NumOps.exp10 x
+
+def findOut (b : Block) (k : String) : Option Float := (b.outs.find? (·.1 == k)).map (·.2)
+
+/-- property tolerance: 1e-8 relative (with a hair of slack for the different summation order) -/
+def relTol : Float := 1.00001e-8
+/-- 1e-8 relative on an activity = this many log10 units -/
+def logTol : Float := 4.3430e-9
+
+def evalBlock (b : Block) : Array String := Id.run do
+  let mut out : Array String := #[]
+  let sites := b.unks.filter (·.type == 20)
+  out := out.push s!"N {b.case} {b.blk} {if b.present then 1 else 0} {b.state} {b.stype} {b.dltype} {sites.size} {b.charges.size} {b.sps.size}"
+  if !b.present then return out
+  let env : Env Float := { tol := relTol, ineqTol := b.ineqTol, minRel := b.minRel, epsr := b.epsr, tk := b.tk, mu := b.mu }
+  let tk := b.tk
+  -- which charge a site element belongs to
+  let chargeOfElt (el : String) : String :=
+    match sites.find? (·.elt == el) with
+    | some u => match b.comps.find? (·.formula == u.comp) with
+      | some c => c.charge
+      | none => ""
+    | none => ""
+  let siteEltOf (sp : Sp) : Option String := (sp.elts.find? (fun e => e.2.2 == 6)).map (·.1)
+  -- 1. site balance -------------------------------------------------------------------------------------
+  for u in sites do
+    let sum := b.sps.foldl (fun acc sp =>
+      sp.elts.foldl (fun a e => if e.1 == u.elt then a + sp.moles * (e.2.1 * u.masterCoef) else a) acc) 0.0
+    let row : Row Float := Row.site u.moles sum
+    out := out.push (vline b "V" "site" u.elt (!row.fails env) sum u.moles)
+    out := out.push (vline b "T" "site-f" u.elt (close 1e-12 1e-30 u.f sum) u.f sum)
+    out := out.push (vline b "T" "site-res" u.elt (close 1e-6 (1e-14 * u.moles.abs + 1e-300) u.resid (u.moles - u.f)) u.resid (u.moles - u.f))
+    match findOut b s!"surf:{u.elt}" with
+    | some v => out := out.push (vline b "T" "pub-surf" u.elt (close 1e-12 1e-30 v sum) v sum)
+    | none => pure ()
+  -- potentials of a charge structure
+  let cbOf (ch : String) (ty : Nat) : Option Unk := b.unks.find? (fun u => u.type == ty && u.charge == ch)
+  -- 2. mass action ---------------------------------------------------------------------------------------
+  for sp in b.sps do
+    -- tie: lm as `molalities` computes it from rxn_x
+    let lmX := lmOf sp.lk sp.lg (sp.rxnx.map fun t => { coef := t.coef, la := t.la })
+    out := out.push (vline b "T" "lm-rxnx" sp.name (close 1e-13 1e-13 sp.lm lmX) sp.lm lmX)
+    -- moles = 10^lm
+    out := out.push (vline b "V" "moles" sp.name (close relTol 1e-300 sp.moles (pow10 sp.lm)) sp.moles (pow10 sp.lm))
+    match sp.rxn.find? (·.type == 6) with
+    | none => out := out.push (vline b "V" "ma" sp.name false 0 0)
+    | some mtok =>
+      let siteU := sites.find? (·.masterName == mtok.name)
+      let nsites := match siteU with | some u => u.moles | none => 0.0
+      let ch := match siteU with | some u => chargeOfElt u.elt | none => ""
+      let equiv : Float := if b.stype == 3 then 1.0 else mtok.coef
+      let lg := lgSurf equiv nsites
+      out := out.push (vline b "T" "lg" sp.name (close 1e-13 1e-13 sp.lg lg) sp.lg lg)
+      let dzAq := sp.rxn.foldl (fun acc t => if isAqTok t then acc + t.z * t.coef else acc) 0.0
+      let toks : List (Tok Float) := sp.rxn.map fun t => { coef := t.coef, la := t.la }
+      if b.stype == 2 || b.stype == 4 then
+        match cbOf ch 21 with
+        | some cb =>
+          let psi := psiOfLa tk cb.masterLa
+          let rhs := laLaw sp.lkdb (electroTerm tk dzAq psi) toks
+          out := out.push (vline b "V" "ma" sp.name (close 0.0 logTol (sp.lm + lg) rhs) (sp.lm + lg) rhs)
+          -- tie: psi token of the rewritten equation
+          let aqx := sp.rxnx.filter isAqTok |>.map fun t => (t.coef, t.z)
+          let pc := psiCoef aqx
+          let got := (sp.rxnx.filter (·.type == 7)).foldl (fun a t => a + t.coef) 0.0
+          out := out.push (vline b "T" "psi-coef" sp.name (close 1e-12 1e-12 got pc) got pc)
+        | none => out := out.push (vline b "V" "ma" sp.name false 0 1)
+      else if b.stype == 3 then
+        match cbOf ch 21, cbOf ch 22, cbOf ch 23 with
+        | some c0, some c1, some c2 =>
+          let (d0, d1, d2) := match sp.cd with
+            | [a, b', c, d, e] => cdDz a b' c d e
+            | _ => sp.dz
+          let rhs := laLaw sp.lkdb (electroTermCD tk d0 d1 d2 (psiOfLaCD tk c0.masterLa) (psiOfLaCD tk c1.masterLa)
+            (psiOfLaCD tk c2.masterLa)) toks
+          out := out.push (vline b "V" "ma" sp.name (close 0.0 logTol (sp.lm + lg) rhs) (sp.lm + lg) rhs)
+          let g0 := (sp.rxnx.filter (·.type == 7)).foldl (fun a t => a + t.coef) 0.0
+          let g1 := (sp.rxnx.filter (·.type == 8)).foldl (fun a t => a + t.coef) 0.0
+          let g2 := (sp.rxnx.filter (·.type == 9)).foldl (fun a t => a + t.coef) 0.0
+          out := out.push (vline b "T" "cd-coef0" sp.name (close 1e-12 1e-12 g0 d0) g0 d0)
+          out := out.push (vline b "T" "cd-coef1" sp.name (close 1e-12 1e-12 g1 d1) g1 d1)
+          out := out.push (vline b "T" "cd-coef2" sp.name (close 1e-12 1e-12 g2 d2) g2 d2)
+        | _, _, _ => out := out.push (vline b "V" "ma" sp.name false 0 1)
+      else
+        -- no electrostatic term (-no_edl)
+        let rhs := laLaw sp.lkdb 0.0 toks
+        out := out.push (vline b "V" "ma" sp.name (close 0.0 logTol (sp.lm + lg) rhs) (sp.lm + lg) rhs)
+    match findOut b s!"mol:{sp.name}" with
+    | some v => out := out.push (vline b "T" "pub-mol" sp.name (close 1e-12 1e-300 (v * b.mwAq) sp.moles) (v * b.mwAq) sp.moles)
+    | none => pure ()
+    match findOut b s!"la:{sp.name}" with
+    | some v => out := out.push (vline b "T" "pub-la" sp.name (close 1e-13 1e-13 v (sp.lm + sp.lg)) v (sp.lm + sp.lg))
+    | none => pure ()
+  -- 3. charge–potential law, 4. diffuse layer ---------------------------------------------------------------
+  for c in b.charges do
+    if c.grams > b.minRel && (b.stype == 2 || b.stype == 3 || b.stype == 4) then
+      let mine := b.sps.filter fun sp => match siteEltOf sp with
+        | some el => chargeOfElt el == c.name
+        | none => false
+      let q := mine.foldl (fun a sp => a + sp.z * sp.moles) 0.0
+      let sigSp := sigmaOfCharge q c.area c.grams
+      let qdl := b.aqs.foldl (fun a s => a + (s.g.foldl (fun a2 g => if g.1 == c.name then a2 + s.z * g.2 else a2) 0.0)) 0.0
+      let pubPsi := findOut b s!"psi:{c.name}"
+      let pubSig := findOut b s!"sigma:{c.name}"
+      let pubMu := (findOut b "mu").getD b.mu
+      let pubEps := (findOut b "epsr").getD b.epsr
+      let pubTk := (findOut b "tk").getD b.tk
+      if b.stype == 2 || b.stype == 4 then
+        match cbOf c.name 21 with
+        | none => out := out.push (vline b "V" "charge-row" c.name false 0 1)
+        | some cb =>
+          let psi := psiOfLa tk cb.masterLa
+          match pubPsi with
+          | some v => out := out.push (vline b "T" "pub-psi" c.name (close 1e-13 1e-18 v psi) v psi)
+          | none => pure ()
+          if b.dltype == 0 then
+            out := out.push (vline b "T" "cb-f" c.name (close 1e-10 1e-22 cb.f q) cb.f q)
+            let law := if b.stype == 2 then gcSigma b.epsr tk b.mu psi else ccmSigma c.cap0 psi
+            out := out.push (vline b "V" (if b.stype == 2 then "gc" else "ccm") c.name (close relTol b.tol sigSp law) sigSp law)
+            let r := if b.stype == 2 then residDDL b.epsr tk b.mu cb.masterLa cb.f c.area c.grams
+                     else residCCM c.cap0 tk cb.masterLa cb.f c.area c.grams
+            out := out.push (vline b "T" "cb-res" c.name (close 1e-6 (1e-13 * (sigSp.abs + 1e-6)) cb.resid r) cb.resid r)
+            match pubPsi, pubSig with
+            | some pp, some ps =>
+              let plaw := if b.stype == 2 then gcSigma pubEps pubTk pubMu pp else ccmSigma c.cap0 pp
+              out := out.push (vline b "V" (if b.stype == 2 then "pub-gc" else "pub-ccm") c.name (close relTol b.tol ps plaw) ps plaw)
+              out := out.push (vline b "T" "pub-sigma" c.name (close 1e-10 1e-22 ps sigSp) ps sigSp)
+            | _, _ => pure ()
+          else
+            -- explicit diffuse layer: ion excess balances the surface charge
+            let tot := q + qdl
+            let ok := !(Row.dl c.grams tot).fails { env with tol := Surface.maxv b.tol (relTol * q.abs) }
+            out := out.push (vline b "V" "dl-neutral" c.name ok qdl (-q))
+            out := out.push (vline b "T" "cb-f" c.name (close 1e-9 1e-20 cb.f tot) cb.f tot)
+            match pubSig with
+            | some ps => out := out.push (vline b "T" "pub-sigma" c.name (close 1e-10 1e-22 ps sigSp) ps sigSp)
+            | none => pure ()
+      else
+        -- CD-MUSIC
+        match cbOf c.name 21, cbOf c.name 22, cbOf c.name 23 with
+        | some u0, some u1, some u2 =>
+          let dzOf (sp : Sp) : Float × Float × Float := match sp.cd with
+            | [a, b', c', d, e] => cdDz a b' c' d e
+            | _ => sp.dz
+          let f0 := mine.foldl (fun a sp => a + (dzOf sp).1 * sp.moles) 0.0
+          let f1 := mine.foldl (fun a sp => a + (dzOf sp).2.1 * sp.moles) 0.0
+          let f2 := mine.foldl (fun a sp => a + (dzOf sp).2.2 * sp.moles) 0.0
+          let sc := sites.foldl (fun a u => if chargeOfElt u.elt == c.name then a + u.moles * u.zMaster else a) 0.0
+          let aq := b.aqs.toList.map fun s => (under s.lm, s.z)
+          let st := cdResiduals b.epsr tk c.area c.grams c.cap0 c.cap1 u0.masterLa u1.masterLa u2.masterLa f0 f1 f2 sc aq
+          let psi0 := psiOfLaCD tk u0.masterLa
+          let psi1 := psiOfLaCD tk u1.masterLa
+          let psi2 := psiOfLaCD tk u2.masterLa
+          out := out.push (vline b "V" "cd-plane0" c.name (close relTol b.tol st.sigma0 (c.cap0 * (psi0 - psi1))) st.sigma0 (c.cap0 * (psi0 - psi1)))
+          out := out.push (vline b "V" "cd-plane1" c.name (close relTol b.tol (st.sigma0 + st.sigma1) (c.cap1 * (psi1 - psi2))) (st.sigma0 + st.sigma1) (c.cap1 * (psi1 - psi2)))
+          out := out.push (vline b "T" "cd-f0" c.name (close 1e-9 1e-20 u0.f f0) u0.f f0)
+          out := out.push (vline b "T" "cd-f1" c.name (close 1e-9 1e-20 u1.f f1) u1.f f1)
+          out := out.push (vline b "T" "cd-sigma0" c.name (close 1e-9 1e-20 c.s0 st.sigma0) c.s0 st.sigma0)
+          out := out.push (vline b "T" "cd-sigma1" c.name (close 1e-9 1e-20 c.s1 st.sigma1) c.s1 st.sigma1)
+          if b.dltype == 0 then
+            out := out.push (vline b "V" "cd-plane2" c.name (close relTol b.tol (st.sigma0 + st.sigma1 + st.sigma2) (-st.sigmaddl)) (st.sigma0 + st.sigma1 + st.sigma2) (-st.sigmaddl))
+            out := out.push (vline b "T" "cd-f2" c.name (close 1e-9 1e-20 u2.f f2) u2.f f2)
+            out := out.push (vline b "T" "cd-res2" c.name (close 1e-5 (1e-12 * (st.sigmaddl.abs + 1e-6)) u2.resid st.r2) u2.resid st.r2)
+          else
+            let r2 := residCD2DL (f2 + qdl) st.sigma0 st.sigma1 c.area c.grams
+            let ok := !(Row.cb c.grams r2).fails { env with tol := Surface.maxv b.tol (relTol * (f2 + (st.sigma0 + st.sigma1) * (c.area * c.grams) / F_C_MOL).abs) }
+            out := out.push (vline b "V" "dl-neutral" c.name ok qdl (-(f2 + (st.sigma0 + st.sigma1) * (c.area * c.grams) / F_C_MOL)))
+            out := out.push (vline b "T" "cd-f2" c.name (close 1e-9 1e-20 u2.f (f2 + qdl)) u2.f (f2 + qdl))
+          match pubPsi with
+          | some v => out := out.push (vline b "T" "pub-psi" c.name (close 1e-13 1e-18 v psi0) v psi0)
+          | none => pure ()
+          match findOut b s!"psi1:{c.name}", findOut b s!"psi2:{c.name}", findOut b s!"sigma:{c.name}", findOut b s!"sigma1:{c.name}" with
+          | some p1, some p2, some s0, some s1 =>
+            let p0 := pubPsi.getD psi0
+            out := out.push (vline b "V" "pub-cd0" c.name (close relTol b.tol s0 (c.cap0 * (p0 - p1))) s0 (c.cap0 * (p0 - p1)))
+            out := out.push (vline b "V" "pub-cd1" c.name (close relTol b.tol (s0 + s1) (c.cap1 * (p1 - p2))) (s0 + s1) (c.cap1 * (p1 - p2)))
+          | _, _, _, _ => pure ()
+        | _, _, _ => out := out.push (vline b "V" "charge-row" c.name false 0 1)
+  return out
+
+def run : IO Unit := do
+  let lines ← readLines (← IO.getStdin)
+  let out ← IO.getStdout
+  let mut cur : Option Block := none
+  for l in lines do
+    let ws := words l
+    match ws with
+    | ["B", c, k] => cur := some { case := c, blk := k }
+    | ["E"] =>
+      match cur with
+      | some b => for s in evalBlock b do out.putStrLn s
+      | none => pure ()
+      cur := none
+    | _ =>
+      match cur with
+      | some b => cur := some (addLine b ws)
+      | none => pure ()
 
 end Driver.Surface
